@@ -1301,6 +1301,34 @@ def r8_closed_form_roots(ctx):
                 n_checked += 1
                 if not E.n.is_zero():
                     bad.append("%s on path %s (u1 = %s): p(root) leaves a remainder of %d terms" % (key[4:], sorted(k for k, v in pol.items() if v), xin, len(E.n.t)))
+    # ---- the pairs reported as complex: DirectSolve takes the maximum over r1 .. r4 whatever nr12 / nr34 say, and for the symmetric key matrix all
+    # roots are real, so D2 < 0 (E2 < 0) only arises from rounding next to a double root.  What is stored there must be that double root: the value of
+    # the real branch with its radical set to zero (-a3/4 +- R/2), on the path that differs only in the sign of D2 (E2)
+    def signature(o_, skip):
+        return tuple(sorted((re.sub(r"\s", "", c_), p_) for c_, p_ in o_.conds if skip not in c_))
+    cbad, n_pairs = [], 0
+    for (test, keys) in (("D2", ("out_r1", "out_r2")), ("E2", ("out_r3", "out_r4"))):
+        for o in outs:
+            n_ = o.env.get("out_nr12" if test == "D2" else "out_nr34")
+            if n_ is None or n_.const_value() != 0:
+                continue
+            twins_ = [o2 for o2 in outs if o2 is not o and signature(o2, test) == signature(o, test) and (o2.env.get("out_nr12" if test == "D2" else "out_nr34").const_value() == 2)]
+            if len(twins_) != 1:
+                cbad.append("the path with %s < 0 has %d sibling paths with %s >= 0" % (test, len(twins_), test))
+                continue
+            o2 = twins_[0]
+            d_ = o2.env[keys[1]] - o2.env[keys[0]]
+            rad = [v for v in d_.vars() if exq.opaque.get(v, ("",))[0] == "sqrt"]
+            if len(rad) != 1:
+                cbad.append("the two real roots of the %s >= 0 branch do not differ by one radical" % test)
+                continue
+            n_pairs += 1
+            for k_ in keys:
+                want_ = Rat(o2.env[k_].n.subs({rad[0]: Poly.const(0)}), o2.env[k_].d.subs({rad[0]: Poly.const(0)}))
+                if not (o.env[k_] == want_):
+                    cbad.append("%s on the path with %s < 0 is %s; the double root the real branch tends to is %s" % (k_[4:], test, repr(o.env[k_])[:60], repr(want_)[:60]))
+    dec(not cbad and n_pairs >= 2, "quartic_equation_solve_exact", lq, "a pair reported as complex carries the double root of the real branch (its value with the radical at zero) - DirectSolve takes the maximum over all four (%d path pairs)" % n_pairs,
+        "; ".join(cbad[:2]) if cbad else "only %d path pairs were found" % n_pairs)
     dec(not bad and n_checked >= 32, "quartic_equation_solve_exact", lq, "every root reported as real satisfies x^4 + a3 x^3 + a2 x^2 + a1 x + a0 = 0 modulo the radicals and the resolvent (%d root expressions on %d paths)" % (n_checked, len(outs)),
         "; ".join(bad[:3]) if bad else "only %d root expressions were reached" % n_checked)
 
